@@ -478,3 +478,229 @@ class PedParts(SubCheck):
 
 
 SUBCHECKS["ped_parts"] = PedParts()
+
+
+# =====================================================================================================================
+# ped_genetic: "by default child-heterozygous variants with a homozygous parent are phased even without any read"
+# - the Python side: such a variant reaches the solver and the writer whatever the reads look like
+# =====================================================================================================================
+class PedGenetic(SubCheck):
+    """run_whatshap itself (default options, --ped) under stubs, as C20's harness: the VCF reader yields a solver-chosen trio
+    table, the phased-input reader yields solver-chosen read sets (none at all included), the exact solver is a contract
+    stub that phases every position it is given (ped_mendel shows the real DP does so, unflagged, for a child-heterozygous
+    column with a homozygous parent and no read), the VCF writer records what it is asked to write.  Asserted: every
+    Mendelian-consistent variant that is heterozygous in the child and homozygous in a parent is among the positions
+    handed to the solver and has a phase set (component) for the child in what the writer gets - with or without reads."""
+
+    name = "ped_genetic"
+    encoded = ["whatshap.cli.phase.run_whatshap (family loop: read selection result -> accessible positions -> genetic haplotyping positions -> solver -> compute_overall_components -> writer)", "find_phaseable_variants", "find_mendelian_conflicts",
+               "setup_families", "setup_pedigree", "create_pedigree", "merge_readsets", "find_components", "compute_overall_components", "whatshap.pedigree.PedReader / mendelian_conflict / UniformRecombinationCostComputer", "whatshap.graph.ComponentFinder"]
+    sources = ["whatshap/cli/phase.py", "whatshap/pedigree.py", "whatshap/vcf.py", "whatshap/graph.py", "whatshap/merge.py"]
+    stubs = ["VcfReader (yields the harness' VariantTable)", "PhasedInputReader.read (harness-chosen read sets: none, one read over all variants, one read over the first two)", "readselection (identity)",
+             "Pedigree / PedigreeDPTable: contract stub returning super reads that carry an allele at every position they were given (justified by ped_mendel for read-less columns) and a constant transmission vector",
+             "PhasedVcfWriter: records (super reads, components) - that a variant present in both with a heterozygous genotype gets phased is C04's claim", "open: in-memory PED file; whatshap.core data classes: vf/models/core_model.py, compiled module in the replay"]
+    assumptions = ["default options of `whatshap phase --ped` (genetic haplotyping on, genotypes trusted, homozygous variants not included)", "trio father/mother/child listed in the PED file; diploid biallelic called genotypes"]
+    required_cover = ["no read at all on the chromosome", "read-less variant with a homozygous parent", "exactly one variant homozygous in a family member", "two such variants", "variant covered by a read", "Mendelian conflict variant present"]
+    hash_mode = "concretise"
+
+    # representative family rows (father, mother, child) for the longer shapes
+    ROWS = [("0/0", "0/1", "0/1"), ("0/1", "0/0", "0/1"), ("1/1", "0/1", "0/1"), ("0/1", "0/1", "0/1"), ("0/0", "1/1", "0/1"), ("0/1", "0/1", "0/0"), ("0/0", "0/0", "0/1"), ("0/0", "0/0", "0/0")]
+
+    def shapes(self, tier):
+        out = [dict(nvar=1, rows="all")]
+        out += [dict(nvar=2, rows="all", first=list(r)) for r in itertools.product(["0/0", "0/1", "1/1"], repeat=3)]
+        out += [dict(nvar=3, rows="representative", first=list(r)) for r in self.ROWS]
+        if tier != "quick":
+            out += [dict(nvar=4, rows="representative", first=list(r), second=list(r2)) for r in self.ROWS for r2 in self.ROWS]
+        return out
+
+    def bounds(self, tier):
+        return ("trio, one chromosome; 1-2 variants: every member's genotype at every variant solver-chosen from {0/0, 0/1, 1/1}; 3%s variants: every variant one of 8 representative family rows "
+                "(one / the other / no parent homozygous, both homozygous, child homozygous, conflict, all homozygous); reads per sample solver-chosen from {none, one read over all variants, one over the first two}" % ("" if tier == "quick" else "-4"))
+
+    setup = PedFilter.setup
+    sym_impl = PedFilter.sym_impl
+    real_impl = PedFilter.real_impl
+
+    def harness(self, e, shape, impl):
+        import io
+        import os
+        import shutil
+        import tempfile
+
+        phase, vcf, core = impl["phase"], impl["vcf"], impl["core"]
+        real = impl is self.real
+        members = ["f", "m", "c"]
+        nvar = shape["nvar"]
+        positions = [100 * (v + 1) for v in range(nvar)]
+        GT = {"0/0": [0, 0], "0/1": [0, 1], "1/1": [1, 1]}
+        rows = []
+        for v in range(nvar):
+            fixed = shape.get("first") if v == 0 else shape.get("second") if v == 1 else None
+            if fixed is not None:
+                rows.append(dict(zip(members, fixed)))
+            elif shape["rows"] == "all":
+                rows.append({s: e.choice("gt_%d_%s" % (v, s), sorted(GT)) for s in members})
+            else:
+                rows.append(dict(zip(members, e.choice("row_%d" % v, self.ROWS))))
+        vt = vcf.VariantTable("chr1", members)
+        for v in range(nvar):
+            vt.add_variant(vcf.BiallelicVcfVariant(positions[v], "A", "C"), [core.Genotype(GT[rows[v][s]]) for s in members], [None] * 3, [None] * 3, [None] * 3)
+        pats = {s: e.choice("reads_%s" % s, ["none", "all", "first two"]) for s in members}
+        seen = dict(dp_positions=None, components=None, superreads=None)
+
+        class VcfReaderStub:
+            def __init__(s2, *a, **k):
+                s2.samples = list(members)
+
+            def __enter__(s2):
+                return s2
+
+            def __exit__(s2, *a):
+                return None
+
+            def __iter__(s2):
+                return iter([vt])
+
+        class WriterStub:
+            def __init__(s2, *a, **k):
+                pass
+
+            def __enter__(s2):
+                return s2
+
+            def __exit__(s2, *a):
+                return None
+
+            def write(s2, chromosome, superreads, components):
+                seen["components"] = {s: dict(c) for s, c in components.items()}
+                seen["superreads"] = {s: sorted(v.position for v in rs[0]) for s, rs in superreads.items()}
+                return []
+
+            def write_unchanged(s2, chromosome):
+                seen["unchanged"] = True
+
+        class InputReaderStub:
+            has_vcfs = False
+            has_alignments = False
+
+            def __init__(s2, paths, ref, numeric_sample_ids, *a, **k):
+                s2.nsi = numeric_sample_ids
+
+            def __enter__(s2):
+                return s2
+
+            def __exit__(s2, *a):
+                return None
+
+            def read_vcfs(s2):
+                pass
+
+            def read(s2, chromosome, variants, sample):
+                rs = core.ReadSet()
+                pos = [v.position for v in variants]
+                span = {"none": [], "all": pos, "first two": pos[:2]}[pats[sample]]
+                if len(span) >= 2:
+                    r = core.Read("read_%s" % sample, 50, 0, s2.nsi[sample])
+                    for p in span:
+                        r.add_variant(p, 0, 10)
+                    rs.add(r)
+                return rs, set()
+
+        class PedStub:
+            def __init__(s2, nsi):
+                s2.nsi, s2.samples, s2.trios = nsi, [], []
+
+            def add_individual(s2, sample, gts, gls=None):
+                s2.samples.append(sample)
+
+            def add_relationship(s2, father_id, mother_id, child_id):
+                s2.trios.append((father_id, mother_id, child_id))
+
+        class DPStub:
+            def __init__(s2, all_reads, recomb, pedigree, distrust, positions):
+                s2.positions, s2.ped, s2.reads = list(positions), pedigree, all_reads
+                seen["dp_positions"] = list(positions)
+                seen["dp_reads"] = [(r.name, [v.position for v in r]) for r in all_reads]
+
+            def get_super_reads(s2):
+                out = []
+                for s in s2.ped.samples:
+                    rs = core.ReadSet()
+                    for h in (0, 1):
+                        r = core.Read("superread_%d_%s" % (h, s), -1, -1, s2.ped.nsi[s])
+                        for p in s2.positions:
+                            r.add_variant(p, h, 0)
+                        rs.add(r)
+                    out.append(rs)
+                return out, [0] * len(s2.positions)
+
+            def get_optimal_cost(s2):
+                return 0
+
+            def get_optimal_partitioning(s2):
+                return [0] * len(s2.reads)
+
+        tmp = tempfile.mkdtemp(prefix="c05-", dir="/var/tmp")
+        ped_path = os.path.join(tmp, "ped.txt")
+        open(ped_path, "w").write("fam1 c f m 0 1\n")
+        patches = dict(VcfReader=VcfReaderStub, PhasedVcfWriter=WriterStub, PhasedInputReader=InputReaderStub, PedigreeDPTable=DPStub, Pedigree=PedStub,
+                       readselection=lambda rs, cov, preferred_source_ids=None, bridging=True: set(range(len(rs))))
+        saved = {k: phase.__dict__.get(k) for k in patches}
+        phase.__dict__.update(patches)
+        exc = None
+        try:
+            try:
+                phase.run_whatshap(phase_input_files=[], variant_file="in.vcf", output=io.StringIO(), ped=ped_path, write_command_line_header=False)
+            except Exception as ex:  # noqa
+                exc = "%s: %s" % (type(ex).__name__, ex)
+        finally:
+            for k, v in saved.items():
+                if v is None:
+                    phase.__dict__.pop(k, None)
+                else:
+                    phase.__dict__[k] = v
+            shutil.rmtree(tmp, ignore_errors=True)
+        e.out("dp_positions", seen["dp_positions"])
+        e.out("components_of_child", sorted((seen["components"] or {}).get("c", {}).items()))
+        ctx = lambda: dict(genotypes=rows, reads=pats, positions_handed_to_solver=seen["dp_positions"], components=seen["components"], exception=exc)
+        e.check(exc is None, "run_whatshap raised on a trio", ctx)
+        covered = set()
+        for s in members:
+            span = {"none": [], "all": positions, "first two": positions[:2]}[pats[s]]
+            if len(span) >= 2:
+                covered.update(span)
+        if all(p == "none" for p in pats.values()):
+            e.cover("no read at all on the chromosome")
+        wanted = []
+        for v in range(nvar):
+            gf, gm, gc = GT[rows[v]["f"]], GT[rows[v]["m"]], GT[rows[v]["c"]]
+            consistent = any(sorted((a, b)) == sorted(gc) for a in gf for b in gm)
+            if not consistent:
+                e.cover("Mendelian conflict variant present")
+                continue
+            if rows[v]["c"] == "0/1" and (rows[v]["f"] != "0/1" or rows[v]["m"] != "0/1"):
+                wanted.append(positions[v])
+        # variants the run retains (consistent, heterozygous in some member) and that are homozygous in some member
+        hom_retained = [positions[v] for v in range(nvar) if any(sorted((a, b)) == sorted(GT[rows[v]["c"]]) for a in GT[rows[v]["f"]] for b in GT[rows[v]["m"]])
+                        and any(rows[v][s] == "0/1" for s in members) and any(rows[v][s] != "0/1" for s in members)]
+        if len(hom_retained) == 1:
+            e.cover("exactly one variant homozygous in a family member")
+        if len(hom_retained) >= 2:
+            e.cover("two such variants")
+        for p in wanted:
+            if p in covered:
+                e.cover("variant covered by a read")
+            else:
+                e.cover("read-less variant with a homozygous parent")
+            e.check(seen["dp_positions"] is not None and p in seen["dp_positions"], "a child-heterozygous variant with a homozygous parent is not handed to the solver (it stays unphased although genetic haplotyping is on)",
+                    lambda p=p: dict(ctx(), position=p, covered_by_a_read=p in covered))
+            comp = (seen["components"] or {}).get("c", {})
+            e.check(p in comp, "a child-heterozygous variant with a homozygous parent gets no phase set for the child", lambda p=p: dict(ctx(), position=p, covered_by_a_read=p in covered))
+            e.check(p in ((seen["superreads"] or {}).get("c") or []), "a child-heterozygous variant with a homozygous parent is missing from the child's super reads", lambda p=p: dict(ctx(), position=p))
+
+    def classify(self, shape, v):
+        return "ped_genetic:%s:covered=%s" % (v["msg"], (v.get("info") or {}).get("covered_by_a_read"))
+
+
+SUBCHECKS["ped_genetic"] = PedGenetic()
